@@ -139,6 +139,13 @@ DepRelease(i) ==
            ELSE /\ ctl' = [ctl EXCEPT !.wait[i] = <<>>, !.ipc[i] = "skip"]
                 /\ S' = Apply(S, [ev |-> "DepUnsat", p |-> P(i), i |-> i, k |-> k])
 
+\* waitIfNeededOrStopped: a pending instance that a stop request has ended no longer waits for its dependencies
+\* (the look-ups already made are abandoned); run() then sees the cancelled run context
+DepAbort(i) ==
+  /\ ctl.ipc[i] = "wait" /\ ctl.cancelled[i] /\ ctl.todo[i] # {}
+  /\ ctl' = [ctl EXCEPT !.wait[i] = <<>>, !.todo[i] = {}, !.ipc[i] = "run.precheck"]
+  /\ UNCHANGED S
+
 (***************************************************************************)
 (* Process.onProcessEnd (shared by Skip, Error, Completed, stop-pending)   *)
 (***************************************************************************)
@@ -490,7 +497,7 @@ ApiShutReturn(id) ==
 Next ==
   \/ RunInit \/ RunSpawn \/ RunReturn
   \/ \E i \in Insts :
-       \/ DepLookup(i) \/ DepLookupDone(i) \/ DepRelease(i) \/ Skip(i) \/ PreCheck(i) \/ Launch(i)
+       \/ DepLookup(i) \/ DepLookupDone(i) \/ DepRelease(i) \/ DepAbort(i) \/ Skip(i) \/ PreCheck(i) \/ Launch(i)
        \/ CmdExit(i) \/ ReadyLine(i) \/ ProbeOk(i) \/ ProbeFail(i) \/ Reap(i) \/ Decide(i)
        \/ BackoffElapsed(i) \/ BackoffAborted(i) \/ End(i)
        \/ EpilogueAdd(i) \/ EpilogueProject(i) \/ TriggerLock(i) \/ TriggerDone(i)
